@@ -649,6 +649,12 @@ def judge_c08(spec, gs, tbs, inputs, diags, dumps, maps, tdiffs, byk, jobs, info
     crash_check('C08', gs, jobs, byk, info, out, 'site:parse@crash')
     for gi, g in enumerate(gs):
         C['grammars'] += 1
+        if g.has_error() and tdiffs[gi] and not (gg.classify(tbs[gi]) in ('rr', 'acc') or diags[gi].has_rr):
+            # the error symbol is an ordinary term (precedence 0, no associativity) for the table construction: which state shifts it
+            # and which reduces first is decided there, so a table that differs changes the recovery
+            C['tables_differing'] += 1
+            viol(out, g, None, None, 'table of a grammar with error rules differs from the reference construction: ' + '; '.join(tdiffs[gi][:3]))
+            continue
         if not g.has_error() or not parseable(gi, gs, tbs, diags, tdiffs) or maps[gi] is None: C['grammars_skipped'] += 1; continue
         tb = tbs[gi]; inv = {v: k for k, v in maps[gi].items()}
         for idx, data in enumerate(inputs[gi]):
